@@ -101,7 +101,7 @@ func (w *World) envStep(ex *Exec) {
 	}
 	pre := w.db
 	w.envSteps++
-	nd := ex.NewSymDB(w.schema, w.slots, fmt.Sprintf("env%d", w.envSteps))
+	nd := ex.NewInvDB(w.schema, w.slots, fmt.Sprintf("env%d", w.envSteps))
 	ex.addPC(ex.Inv(nd, w.now))
 	for _, g := range ex.GParts(pre, nd) {
 		ex.addPC(g.t)
@@ -147,6 +147,9 @@ func (ex *Exec) submit(c *CoroObj, sub Value) (Value, Value) {
 		cv, ev := ex.processStore(sub, subT)
 		w.curCoro = prevCoro
 		rec.post = w.snap(ex)
+		if w.autoO2 != "" && dbChanged(w.snaps[rec.pre], w.snaps[rec.post]) {
+			ex.assertGroup(append(ex.InvParts(w.snaps[rec.post], w.now), ex.GParts(w.snaps[rec.pre], w.snaps[rec.post])...), w.autoO2)
+		}
 		if fault == 2 {
 			rec.fault = "after"
 			errv = ex.opaqueErr("store: failure after processing")
@@ -251,6 +254,22 @@ func (ex *Exec) processVia(worker Value, sub Value, subT types.Type) (Value, Val
 	return ex.fget(cqe, cqeT, "Completion"), ex.fget(cqe, cqeT, "Error")
 }
 
+// dbChanged: some statement replaced a table's rows (syntactic check).
+func dbChanged(a, b *SymDB) bool {
+	for _, n := range a.names {
+		ta, tb := a.tabs[n], b.tabs[n]
+		if len(ta.rows) != len(tb.rows) || ta.nextSort != tb.nextSort {
+			return true
+		}
+		for i := range ta.rows {
+			if ta.rows[i] != tb.rows[i] {
+				return true
+			}
+		}
+	}
+	return false
+}
+
 func isCoroFunc(fn *ssa.Function) bool {
 	if len(fn.Params) == 0 {
 		return false
@@ -310,6 +329,10 @@ func init() {
 		w.subFaults = (flags >> 8) & 0xff
 		w.ncoro++
 		return ex.coroValue(&CoroObj{id: w.ncoro})
+	})
+	vx("AutoO2", func(ex *Exec, fr *Frame, a []Value, s ssa.Instruction) Value {
+		ex.W.autoO2 = ex.str(a[0], "label")
+		return nil
 	})
 	vx("SetConfig", func(ex *Exec, fr *Frame, a []Value, s ssa.Instruction) Value {
 		ex.W.config = a[0]
